@@ -56,12 +56,18 @@ type Segment struct {
 func (s *Segment) WriteTo(w io.Writer, _ chan struct{}) (int64, error) {
 	bw := bufio.NewWriter(w)
 
-	n, err := s.data.WriteTo(w)
+	// hash the data section as it is written: the footer CRC continues from the
+	// CRC of the data, whereas the footer of a loaded segment holds the CRC of
+	// the whole file it was loaded from
+	hw := newCountHashWriter(w)
+	n, err := s.data.WriteTo(hw)
 	if err != nil {
 		return n, fmt.Errorf("error persisting segment: %w", err)
 	}
 
-	err = persistFooter(s.footer, bw)
+	footer := *s.footer
+	footer.crc = hw.Sum32()
+	err = persistFooter(&footer, bw)
 	if err != nil {
 		return n, fmt.Errorf("error persisting segment footer: %w", err)
 	}
